@@ -13,7 +13,8 @@ open AdaptaVerif.Model.Compound (Dim)
 open AdaptaVerif.Lemmas.VpscModel AdaptaVerif.Lemmas.VpscHistory AdaptaVerif.Lemmas.VpscInv
 open AdaptaVerif.Lemmas.VpscMerge AdaptaVerif.Lemmas.VpscStaticFrame
 open AdaptaVerif.Lemmas.MakeFeasibleFrame
-open AdaptaVerif.Lemmas.VpscFinal (Hist)
+open AdaptaVerif.Lemmas.VpscFinal (Hist hist_J final_eq positions_get)
+open AdaptaVerif.Lemmas.VpscSolve (satisfy_final)
 
 /-! ### consistency of a solver state with a constraint vector -/
 
@@ -106,6 +107,30 @@ theorem solve_holds {vars : Array (Rat × Rat × Rat)} {V : Array Con} {st0 st' 
   rw [d1, d2, d3, hc.scale _ hl, hc.scale _ hr] at h1
   exact h1
 
+/-- in a returning, flag-free `satisfy` after a public-API history, every equality of the caller's vector
+    holds EXACTLY at the reported positions (scales of the variables in range non-zero) -/
+theorem solve_eq_exact {vars : Array (Rat × Rat × Rat)} {V : Array Con} {st0 st' : St} {pos : Array Rat}
+    {ret : Bool} (hs : st0.satisfy = (st', .ok pos ret)) (hh : Hist st0) (hc : Consist vars V st')
+    (hcl : Clean st') (hscale : ∀ i : Nat, i < vars.size → (vars[i]!).2.2 ≠ 0) :
+    ∀ c ∈ V, c.l < vars.size → c.r < vars.size → c.eq = true → slackOf vars pos c = 0 := by
+  intro c hcV hl hr heq
+  have hF := satisfy_final st0 st' pos ret (hist_J hh) hs
+  have hp := (satisfy_ok st0 st' pos ret hs).1
+  obtain ⟨i, hi, rfl⟩ := Array.mem_iff_getElem.1 hcV
+  have hi' : i < st'.cons.size := by rw [hc.size]; exact hi
+  obtain ⟨d1, d2, d3, d4⟩ := hc.data i hi
+  rw [getElem!_pos V i hi] at d1 d2 d3 d4
+  obtain ⟨_, ht⟩ := final_eq hF i hi' (by rw [d4]; exact heq) (hcl i hi')
+  rw [d1, d2, d3] at ht
+  have hl' : V[i].l < st'.vars.size := by rw [hc.vsize]; exact hl
+  have hr' : V[i].r < st'.vars.size := by rw [hc.vsize]; exact hr
+  have sl : (st'.vars[V[i].l]!).scale ≠ 0 := by rw [hc.scale _ hl]; exact hscale _ hl
+  have sr : (st'.vars[V[i].r]!).scale ≠ 0 := by rw [hc.scale _ hr]; exact hscale _ hr
+  unfold slackOf
+  rw [hp, positions_get st' _ hl', positions_get st' _ hr', ← hc.scale _ hl, ← hc.scale _ hr,
+    scale_mul_pos st' _ sl, scale_mul_pos st' _ sr]
+  linarith
+
 /-! ### the invariant of one dimension -/
 
 /-- the live solver of a dimension is consistent with `valid` -/
@@ -136,15 +161,23 @@ structure Good (n : Nat) (ds : DimSt) : Prop where
   wit : ∃ g : Array Rat, g.size = ds.vars.size ∧ (∀ i : Nat, i < n → g[i]! = ds.final[i]!) ∧
         ∀ c ∈ ds.valid, ZERO_UPPERBOUND ≤ slackOf ds.vars g c
   sol : ∀ st, ds.solver = some st → SolverOk ds st
+  /-- if all scales are non-zero, ONE witness also makes every kept equality hold exactly -/
+  weq : (∀ i : Nat, i < ds.vars.size → (ds.vars[i]!).2.2 ≠ 0) →
+        ∃ g : Array Rat, g.size = ds.vars.size ∧ (∀ i : Nat, i < n → g[i]! = ds.final[i]!) ∧
+        (∀ c ∈ ds.valid, ZERO_UPPERBOUND ≤ slackOf ds.vars g c) ∧
+        ∀ c ∈ ds.valid, c.eq = true → slackOf ds.vars g c = 0
 
 theorem Good.pre {n : Nat} {ds : DimSt} (h : Good n ds) : Pre ds := ⟨h.fsize, h.wf, h.sol⟩
 
 theorem good_init (n : Nat) (vs : Array (Rat × Rat × Rat)) :
     Good n { vars := vs, final := vs.map (·.1) } := by
-  refine ⟨by simp, fun c hc => ?_, ⟨vs.map (·.1), by simp, fun _ _ => rfl, fun c hc => ?_⟩, fun st h => ?_⟩
+  refine ⟨by simp, fun c hc => ?_, ⟨vs.map (·.1), by simp, fun _ _ => rfl, fun c hc => ?_⟩, fun st h => ?_,
+    fun _ => ⟨vs.map (·.1), by simp, fun _ _ => rfl, fun c hc => ?_, fun c hc => ?_⟩⟩
   · simp at hc
   · simp at hc
   · simp at h
+  · simp at hc
+  · simp at hc
 
 theorem restore_size (n : Nat) (prior cur : Array Rat) : (restore n prior cur).size = cur.size := by
   unfold restore
@@ -207,14 +240,18 @@ theorem tryCon_good (n : Nat) (ds : DimSt) (c : Con) (own : Nat × Nat) (h : Goo
     split
     · -- flagged: back out
       rename_i hfl
-      refine ⟨⟨?_, h.wf, ⟨g, hg1, fun i hi => ?_, hg3⟩, fun st hst => by simp at hst⟩, rfl,
+      have hres : ∀ i : Nat, i < n → (restore n ds.final pos)[i]! = ds.final[i]! := fun i hi =>
+        restore_node n ds.final pos
+          (by rw [(satisfy_ok _ _ _ _ hsat).1, positions_size, hcons.vsize, h.fsize]) i hi
+      refine ⟨⟨?_, h.wf, ⟨g, hg1, fun i hi => ?_, hg3⟩, fun st hst => by simp at hst, fun hsc => ?_⟩, rfl,
         fun hh => by simp at hh, fun _ => rfl⟩
       · show (restore n ds.final pos).size = ds.vars.size
         rw [restore_size, (satisfy_ok _ _ _ _ hsat).1, positions_size, hcons.vsize]
       · show g[i]! = (restore n ds.final pos)[i]!
-        rw [restore_node n ds.final pos ?_ i hi]
-        · exact hg2 i hi
-        · rw [(satisfy_ok _ _ _ _ hsat).1, positions_size, hcons.vsize, h.fsize]
+        rw [hres i hi]
+        exact hg2 i hi
+      · obtain ⟨g', e1, e2, e3, e4⟩ := h.weq hsc
+        exact ⟨g', e1, fun i hi => (e2 i hi).trans (hres i hi).symm, e3, e4⟩
     · rename_i hfl
       have hcl : Clean st' := clean_of_any (by simpa using hfl)
       obtain ⟨hp, hall⟩ := solve_holds hsat hcons hcl
@@ -223,17 +260,20 @@ theorem tryCon_good (n : Nat) (ds : DimSt) (c : Con) (own : Nat × Nat) (h : Goo
         rcases Array.mem_push.1 hc' with hm | rfl
         · exact h.wf c' hm
         · exact hc
-      refine ⟨⟨hp, hwf, ⟨pos, hp, fun _ _ => rfl, fun c' hc' => ?_⟩, fun st hst => ?_⟩, rfl,
+      have hex := solve_eq_exact hsat (solverFor_hist ds c h.pre hc) hcons hcl
+      refine ⟨⟨hp, hwf, ⟨pos, hp, fun _ _ => rfl, fun c' hc' => ?_⟩, fun st hst => ?_, fun hsc =>
+        ⟨pos, hp, fun _ _ => rfl, fun c' hc' => hall c' hc' (hwf c' hc').1 (hwf c' hc').2.1,
+          fun c' hc' he => hex hsc c' hc' (hwf c' hc').1 (hwf c' hc').2.1 he⟩⟩, rfl,
         fun _ => rfl, fun hh => by simp at hh⟩
       · exact hall c' hc' (hwf c' hc').1 (hwf c' hc').2.1
       · have e : st' = st := by simpa using hst
         subst e
         exact ⟨hcons.size, hcons.data, hcl, hcons.vsize, hcons.scale, hhist⟩
   | threw =>
-    exact ⟨⟨h.fsize, h.wf, ⟨g, hg1, hg2, hg3⟩, fun st hst => by simp at hst⟩, rfl,
+    exact ⟨⟨h.fsize, h.wf, ⟨g, hg1, hg2, hg3⟩, fun st hst => by simp at hst, h.weq⟩, rfl,
       fun hh => by simp at hh, fun _ => rfl⟩
   | outOfFuel =>
-    exact ⟨⟨h.fsize, h.wf, ⟨g, hg1, hg2, hg3⟩, fun st hst => by simp at hst⟩, rfl,
+    exact ⟨⟨h.fsize, h.wf, ⟨g, hg1, hg2, hg3⟩, fun st hst => by simp at hst, h.weq⟩, rfl,
       fun hh => by simp at hh, fun _ => rfl⟩
 
 /-! ### the whole state -/
@@ -533,16 +573,19 @@ theorem combineSolve_spec (mf : MF) (cc : Nat) (d : Dim) :
           rw [hsat] at this
           exact this
         obtain ⟨hps, hall⟩ := solve_holds hsat hc hcl
-        refine ⟨hps, hp.wf, ⟨pos, hps, fun _ _ => rfl, fun c hcm => ?_⟩, fun st hst => ?_⟩
+        have hh0 : Hist st0 := by
+          subst hst0
+          unfold solverOf
+          split
+          · exact Hist.init _ _ hp.wf
+          · rename_i st1 hs1; exact (hp.sol st1 hs1).hist
+        have hex := solve_eq_exact hsat hh0 hc hcl
+        refine ⟨hps, hp.wf, ⟨pos, hps, fun _ _ => rfl, fun c hcm => ?_⟩, fun st hst => ?_, fun hsc =>
+          ⟨pos, hps, fun _ _ => rfl, fun c hcm => hall c hcm (hp.wf c hcm).1 (hp.wf c hcm).2.1,
+            fun c hcm he => hex hsc c hcm (hp.wf c hcm).1 (hp.wf c hcm).2.1 he⟩⟩
         · exact hall c hcm (hp.wf c hcm).1 (hp.wf c hcm).2.1
         · have e : st' = st := by simpa using hst
           subst e
-          have hh0 : Hist st0 := by
-            subst hst0
-            unfold solverOf
-            split
-            · exact Hist.init _ _ hp.wf
-            · rename_i st1 hs1; exact (hp.sol st1 hs1).hist
           have hh : Hist st0.satisfy.1 := Hist.satisfy _ hh0
           rw [hsat] at hh
           exact ⟨hc.size, hc.data, hcl, hc.vsize, hc.scale, hh⟩
